@@ -174,6 +174,13 @@ func (rn *RawNode) VerifLogEntries(lo, hi uint64) ([]*pb.Entry, error) {
 	return l.slice(lo, hi, noLimit)
 }
 
+// VerifLogSlice is raftLog.slice(lo, hi, maxSize) without clamping: the range
+// query of the combined view under a size limit. The caller must keep
+// firstIndex <= lo <= hi <= lastIndex+1.
+func (rn *RawNode) VerifLogSlice(lo, hi, maxSize uint64) ([]*pb.Entry, error) {
+	return rn.raft.raftLog.slice(lo, hi, entryEncodingSize(maxSize))
+}
+
 // VerifSetRandomizedElectionTimeout pins the randomized election timeout. It is
 // used only by directed regression scenarios.
 func (rn *RawNode) VerifSetRandomizedElectionTimeout(t int) {
